@@ -182,6 +182,8 @@ def gen_basic(rng, op, malformed=False):
     if op in ('movedim', 'transpose'):
         s = rshape(rng, 1, 4)
         a, b = rng.randrange(-len(s), len(s)), rng.randrange(-len(s), len(s))
+        if rng.chance(.3):                      # the same dimension named twice (directly or through its negative alias): identity
+            b = rng.pick([a, a - len(s) if a >= 0 else a + len(s)])
         if malformed: a = len(s)
         return [L(s)], [a, b]
     if op == 'flatten':
